@@ -320,7 +320,7 @@ def environment_level(ctx):
                 break
             ctx.case(('env-level', before, a), after != before, None)
             ctx.count('environment-level step', impl.ACTS[a].name)
-            if rwd != exp_r or bool(done) != bool(exp_d):
+            if not core.same(rwd, exp_r) or bool(done) != bool(exp_d):
                 ctx.violation(f'functional_step returned (reward {rwd!r}, done {done!r}); the components on the state before, {impl.ACTS[a].name} and the state after give ({exp_r!r}, {exp_d!r})',
                               {'state': gen.show_state(before), 'action': impl.ACTS[a].name, 'next_state': gen.show_state(after), 'wire_state': before})
                 return
